@@ -67,7 +67,12 @@ func c19MapOrders(c *mc.Check) {
 			maxPoints = e.MaxPoints
 		}
 	}
-	f.SpaceStats(execs, decisions, maxPoints, true)
+	if decisions > 0 {
+		f.SpaceStats(execs, decisions, maxPoints, true)
+	}
+	// on a tree whose parser iterates no map there is nothing to decide: one execution per word
+	f.Set("executions", execs)
+	f.Set("map_order_decisions", decisions)
 	f.Set("max_decisions_per_execution", maxPoints)
 	f.Sample(c19mCase{"at>10:00", nil})
 	f.Done()
